@@ -360,6 +360,14 @@ def make_probe(cls, sched_ref):
 # -------------------------------------------------------------------------------------------------
 # fingerprint of the shared compiled state (pre-pass in line mode: which lines write shared state?)
 
+def _is_instance(g):
+    import types
+    if isinstance(g, (type, types.ModuleType, types.FunctionType, types.BuiltinFunctionType, types.MethodType, str, bytes, int,
+                      float, tuple, frozenset, type(None))):
+        return False
+    return hasattr(g, '__dict__') and type(g).__module__.split('.')[0] in ('DocumentTemplate', 'TreeDisplay')
+
+
 def fingerprint(template):
     out = []
     d = template.__dict__
@@ -393,6 +401,13 @@ def fingerprint(template):
                 out.append((mname, gname, len(g), tuple(id(x) for x in list(g)[:50])))
             elif isinstance(g, dict) and gname not in ('__builtins__',):
                 out.append((mname, gname, len(g), tuple(sorted(id(x) for x in list(g.values())[:50]))))
+            elif _is_instance(g):
+                # module-level objects (preallocated signals, singletons): their attributes are shared state
+                try:
+                    out.append((mname, gname, tuple(sorted((k, id(x) if not isinstance(x, (str, int, float, type(None), bool)) else x)
+                                                           for k, x in vars(g).items()))))
+                except TypeError:
+                    pass
     return tuple(out)
 
 
